@@ -350,6 +350,11 @@ class Emitter:
     def req(self, target, count_site=True):
         """text of a require call of `target` (a Mod); registers the site"""
         sp = spellings(self.p["mode"], self.source, target.path, self.p["files"], self.p.get("aliases"))
+        forced = self.p.get("force_literal", {}).get((self.source, target.path))
+        if forced is not None:
+            assert resolve(self.p["mode"], self.source, forced, self.p["files"], aliases=self.p.get("aliases")) == target.path, \
+                (self.source, forced, target.path)
+            sp = [forced]
         lit = self.rnd.choice(sp)
         if not lit.startswith("."):
             self.p["features"].add("alias-or-self-spelling")
@@ -745,13 +750,83 @@ def gen_project(rnd, mode=None, n=None, want=None):
     return proj
 
 
+def resolution_base(mode, source):
+    base = posixpath.dirname(source)
+    if mode == "luau" and posixpath.basename(source).split(".")[0] == "init":
+        base = posixpath.dirname(base)
+    return base
+
+
+TWIN_VARIANTS = [(rk, tk) for rk in ("plain", "init", "entry", "three") for tk in ("lua-ext", "lua", "luau", "folder", "parent")]
+
+
+def twin_project(rnd, mode, variant):
+    """the SAME relative literal written in files of different directories, where it denotes
+    DIFFERENT files: src/a/entry.lua and src/b/entry.lua both `require("./helper")`, with distinct
+    src/a/helper.lua and src/b/helper.lua whose exports differ"""
+    rk, tk = variant
+    proj = {"mode": mode, "features": {"same-literal-different-directories", "twin:%s/%s" % variant}, "files": {},
+            "nested": False, "excludes": [], "excluded": [], "shared": True}
+    entry = "src/main.lua"
+    if rk == "init":
+        requirers = ["src/a/pkg/init.lua", "src/b/pkg/init.luau"]
+    elif rk == "entry":
+        requirers = [entry, "src/lib/user.lua"]
+    elif rk == "three":
+        requirers = ["src/a/entry.lua", "src/b/entry.luau", "src/a/deep/entry.lua"]
+    elif tk == "parent":
+        requirers = ["src/a/x/entry.lua", "src/b/x/entry.lua"]
+    else:
+        requirers = ["src/a/entry.lua", "src/b/entry.lua"]
+    literal = {"lua-ext": "./helper.lua", "lua": "./helper", "luau": "./helper", "folder": "./helper", "parent": "../helper"}[tk]
+    helpers = []
+    for r in requirers:
+        base = resolution_base(mode, r)
+        if tk == "parent":
+            base = posixpath.dirname(base)
+        helpers.append(base + {"lua-ext": "/helper.lua", "lua": "/helper.lua", "luau": "/helper.luau",
+                               "folder": "/helper/init.lua", "parent": "/helper.lua"}[tk])
+    if len(set(helpers)) != len(helpers) or any(h in requirers for h in helpers) or any(not h.startswith("src/") for h in helpers):
+        return None
+    mods = [Mod(0, entry, "lua", "entry")]
+    index = {entry: 0}
+    for path in requirers + helpers:
+        if path not in index:
+            index[path] = len(mods)
+            mods.append(Mod(len(mods), path, "lua", rnd.choice(["table", "func", "string", "table"])))
+    for r in requirers:
+        if r != entry:
+            mods[0].deps.append(index[r])
+    proj["force_literal"] = {}
+    for r, h in zip(requirers, helpers):
+        mods[index[r]].deps.append(index[h])
+        proj["force_literal"][(r, h)] = literal
+    # the helper of the first directory is also required by the entry under another spelling in some projects
+    if rnd.random() < 0.5 and entry not in requirers:
+        mods[0].deps.append(index[helpers[-1]])
+    if rnd.random() < 0.5:
+        rnd.shuffle(mods[0].deps)
+    for m in mods:
+        proj["files"][m.path] = ""
+    for m in reversed(mods[1:]):
+        proj["files"][m.path] = lua_module_text(proj, rnd, m, mods)
+    proj["files"][entry] = entry_text(proj, rnd, mods[0], mods)
+    proj["entry"] = entry
+    proj["reference"] = reference_text(proj, mods)
+    proj["graph"] = {m.path: ("lua", list(m.sites), 1 if m.idx else None) for m in mods}
+    proj["roots"] = list(mods[0].sites)
+    proj["modules"] = len(mods) - 1
+    return proj
+
+
 # ---------------------------------------------------------------------------------------------
 # small graphs, all of them (cycles, missing files, malformed modules)
 
 
 def small_project(n, adj, mode="path", defect=None):
     """n nodes (0 = entry `src/main.lua`, i = `src/m<i>.lua`); adj[i] = list of targets of node i in
-    textual order. defect = None | ("missing", i) | ("syntax", i) | ("two", i) | ("noreturn", i) | ("baddata", i, fmt)"""
+    textual order. defect = None | ("missing", i) | ("syntax", i) | ("two", i) | ("three", i) | ("noreturn", i) | ("bare", i) |
+    ("bare-semicolon", i) | ("doreturn", i) | ("baddata", i, fmt)"""
     paths = ["src/main.lua"] + ["src/m%d.lua" % i for i in range(1, n)]
     files, graph = {}, {}
     nf = {}
@@ -783,6 +858,21 @@ def small_project(n, adj, mode="path", defect=None):
             elif defect[0] == "noreturn":
                 text = text.rsplit("return", 1)[0] + "local z = 1\n"
                 kind = ("lua", sites, None)
+            elif defect[0] == "bare":
+                # `return` with zero values
+                text = text.rsplit("return", 1)[0] + "local z = 1\nreturn\n"
+                kind = ("lua", sites, 0)
+            elif defect[0] == "bare-semicolon":
+                text = text.rsplit("return", 1)[0] + "return;\n"
+                kind = ("lua", sites, 0)
+            elif defect[0] == "doreturn":
+                # the value is returned from inside a final `do` block: the module block itself has no last statement
+                head, tail = text.rsplit("return", 1)
+                text = head + "do return" + tail.rstrip("\n") + " end\n"
+                kind = ("lua", sites, None)
+            elif defect[0] == "three":
+                text = text.rsplit("return", 1)[0] + "return 1, nil, 3\n"
+                kind = ("lua", sites, 3)
             elif defect[0] == "baddata":
                 text = {"json": "{ \"a\": ", "json5": "{ a: ", "yaml": "a: [1, 2", "yml": "a: [1", "toml": "a = "}[defect[2]]
                 kind = ("broken",)
